@@ -5,6 +5,10 @@ C17 — Access boundaries.
     read-only error, for *any* underlying store model `S`, so the underlying state never changes, and
     every read is the read of the underlying store.  The generated obligations of
     `LiquerProofs/Inst/ReadOnly.lean` tie the set of refused methods to the classes of the current tree.
+(a') `store.read_only().mount(key, other)` (C14's mount model over tagged parts, `LiquerModel/StoreMountRO.lean`): the
+    default store of the composite is the VIEW, so after any history the store under the view is unchanged, writes
+    outside the mounts are refused and touch nothing, reads outside are the underlying reads, writes below a mount
+    change the mounted store only; `bypass_mount_writes_through` = the composite over the underlying store itself.
 (b) `FileStore` (with the D4 fix): for every root and every key string, an accepted key denotes a path
     inside the root, an accepted metadata key a metadata path inside the root, and a key that is not
     accepted makes every operation fail with `KeyNotSupported` before anything is touched.
@@ -14,6 +18,7 @@ import LiquerProofs.Lemmas.StoreFile
 import LiquerProofs.Lemmas.StoreSpec
 import LiquerProofs.Lemmas.StoreFileFrame
 import LiquerProofs.Inst.ReadOnly
+import LiquerProofs.Lemmas.StoreMountRO
 
 namespace Liquer.C17
 open Liquer
@@ -220,9 +225,303 @@ example : ((fileOps [['s'], ['r']]).run ((fileInit [['s'], ['r']]).set [['s'], [
     [.store [dotdot, ['x']] [1] { user := [] }, .store [['a']] [1] { user := [] }, .removedir [dot] true]).get [['s'], ['x']]
     = some (.dfile [9]) := by rfl
 
+/-! ### (a') a mount on top of the view: `store.read_only().mount(key, other)`
+
+`Store.mount` builds `MountPointStore(self)`: on a read-only view the DEFAULT store of the composite is the view.
+Model: `mountOps (partOps S) supp` on states `(some (.ro s), tbl)` (`LiquerModel/StoreMountRO.lean`); `.ro s` = the view
+of a store in state `s`, `.rw st` = a plain store.  `M P = mountOps P T` (`T` = `MemoryStore` / `FileStore` support every key). -/
+
+section ViewMount
+open Liquer.SV Liquer.MtL Liquer.MtRO
+
+variable {σ : Type}
+
+/-- **the store under the view never changes**: after ANY history (store, store_metadata, remove, removedir — recursive
+or not —, makedir, on any keys, in or out of the mounts, succeeding or raising) on a composite whose default store is a
+read-only view of a store in state `s`, the default store is still the view of `s` — for every routing table, every part
+model `S` and every `is_supported`; both for the states the harness observes (`Mt.runX`: a raising recursive `removedir`
+keeps what it had deleted) and for the model's own `run`. -/
+theorem view_mount_default_unchanged (S : StoreOps σ) (supp : Part σ → Key → Bool) (s : σ) (tbl : List (Key × Part σ))
+    (h : List StoreOp) :
+    (Mt.runX (partOps S) supp (some (.ro s), tbl) h).1 = some (.ro s) ∧
+    ((mountOps (partOps S) supp).run (some (.ro s), tbl) h).1 = some (.ro s) :=
+  ⟨runX_inv (partOps S) supp _ (kept_fst (partOps S) supp (.ro s) (frozen_ro S s)) _ h rfl,
+   run_inv (partOps S) supp _ (kept_fst (partOps S) supp (.ro s) (frozen_ro S s)) _ h rfl⟩
+
+/-- … and the table keeps its prefixes and the kind (view / plain store) of every mounted part, so the theorems below
+apply again after every operation -/
+theorem view_mount_shape_kept (S : StoreOps σ) (supp : Part σ → Key → Bool) (s0 : MtState (Part σ)) (h : List StoreOp) :
+    (Mt.runX (partOps S) supp s0 h).2.map (fun e => (e.1, e.2.isRO)) = s0.2.map (fun e => (e.1, e.2.isRO)) ∧
+    ((mountOps (partOps S) supp).run s0 h).2.map (fun e => (e.1, e.2.isRO)) = s0.2.map (fun e => (e.1, e.2.isRO)) :=
+  ⟨runX_inv (partOps S) supp _ (kept_shape S supp _) _ h rfl, run_inv (partOps S) supp _ (kept_shape S supp _) _ h rfl⟩
+
+/-- **writes outside the mounts are refused**: a mutating operation whose key has no mount on its path (it is routed to
+the default store, `route_exclusive_default`) — other than a recursive `removedir` (next theorem) and a `removedir` of the
+root key (a no-op that succeeds, `view_mount_removedir_root`) — raises the read-only error and leaves the WHOLE composite
+as it was. -/
+theorem view_mount_refuses_outside (S : StoreOps σ) (s : σ) (tbl : List (Key × Part σ)) (op : StoreOp)
+    (hrec : ∀ k, op ≠ .removedir k true) (hroot : isRemovedir op = true → opKey op ≠ [])
+    (hn : NoMount tbl (opKey op)) :
+    (M (partOps S)).apply (some (.ro s), tbl) op = .error .readOnly ∧
+    Mt.stepX (partOps S) T (some (.ro s), tbl) op = (some (.ro s), tbl) ∧
+    (M (partOps S)).step (some (.ro s), tbl) op = (some (.ro s), tbl) := by
+  have hwrite : ∀ op', isRemovedir op' = false → NoMount tbl (opKey op') →
+      (M (partOps S)).apply (some (.ro s), tbl) op' = .error .readOnly := by
+    intro op' hop' hn'
+    rw [mount_write_default (partOps S) _ op' hop' hn']
+    simp [part_apply_ro, Except.map]
+  have hstep : ∀ op', (M (partOps S)).apply (some (.ro s), tbl) op' = .error .readOnly →
+      (M (partOps S)).step (some (.ro s), tbl) op' = (some (.ro s), tbl) := by
+    intro op' h'
+    simp [StoreOps.step, h']
+  cases op with
+  | removedir k r =>
+    cases r with
+    | true => exact absurd rfl (hrec k)
+    | false =>
+      have hk : k ≠ [] := hroot rfl
+      have hx : Mt.removedirFull (partOps S) T (some (.ro s), tbl) k false = ((some (.ro s), tbl), some .readOnly) :=
+        removedirX_outside_nonrec S (some (.ro s), tbl) s rfl k hk hn _
+      have ha : (M (partOps S)).apply (some (.ro s), tbl) (.removedir k false) = .error .readOnly := by
+        show Mt.removedir (partOps S) T _ k false = _
+        unfold Mt.removedir
+        rw [hx]
+      exact ⟨ha, by show (Mt.removedirFull (partOps S) T _ k false).1 = _; rw [hx], hstep _ ha⟩
+  | store k d m => exact ⟨hwrite _ rfl hn, hstep _ (hwrite _ rfl hn), hstep _ (hwrite _ rfl hn)⟩
+  | storeMeta k m => exact ⟨hwrite _ rfl hn, hstep _ (hwrite _ rfl hn), hstep _ (hwrite _ rfl hn)⟩
+  | remove k => exact ⟨hwrite _ rfl hn, hstep _ (hwrite _ rfl hn), hstep _ (hwrite _ rfl hn)⟩
+  | makedir k => exact ⟨hwrite _ rfl hn, hstep _ (hwrite _ rfl hn), hstep _ (hwrite _ rfl hn)⟩
+
+/-- a recursive `removedir` of a non-root key with no mount on, at or below its path is refused as well and touches
+nothing (not even transiently: the state the harness observes is the old one).  The error is the read-only error unless
+the underlying store's own `listdir` / `is_dir` raises first (or the model's fuel runs out: `other`). -/
+theorem view_mount_refuses_outside_recursive (S : StoreOps σ) (s : σ) (tbl : List (Key × Part σ)) (k : Key)
+    (hk : k ≠ []) (hn : NoMount tbl k) (ha : ¬ Above tbl k) :
+    ∃ e, (M (partOps S)).apply (some (.ro s), tbl) (.removedir k true) = .error e ∧ RefusedWith S s e ∧
+      Mt.stepX (partOps S) T (some (.ro s), tbl) (.removedir k true) = (some (.ro s), tbl) ∧
+      (M (partOps S)).step (some (.ro s), tbl) (.removedir k true) = (some (.ro s), tbl) := by
+  obtain ⟨e, he, hr⟩ := removedirX_outside_rec S s (Mt.depthBound (partOps S) (some (.ro s), tbl) + 2)
+    (some (.ro s), tbl) k rfl hk hn ha
+  have hx : Mt.removedirFull (partOps S) T (some (.ro s), tbl) k true = ((some (.ro s), tbl), some e) := he
+  have hap : (M (partOps S)).apply (some (.ro s), tbl) (.removedir k true) = .error e := by
+    show Mt.removedir (partOps S) T _ k true = _
+    unfold Mt.removedir
+    rw [hx]
+  refine ⟨e, hap, hr, ?_, ?_⟩
+  · show (Mt.removedirFull (partOps S) T _ k true).1 = _
+    rw [hx]
+  · simp [StoreOps.step, hap]
+
+/-- `removedir` of the root key does nothing and succeeds (on every composite) — the reason for the side condition above -/
+theorem view_mount_removedir_root (S : StoreOps σ) (supp : Part σ → Key → Bool) (s0 : MtState (Part σ)) (r : Bool) :
+    (mountOps (partOps S) supp).apply s0 (.removedir [] r) = .ok s0 := by
+  show Mt.removedir (partOps S) supp s0 [] r = _
+  simp [Mt.removedir, Mt.removedirFull, Mt.removedirX]
+
+/-- **reads outside the mounts are the reads of the store under the view**: for a key with no mount on, at or below its
+path, `get_bytes` and `is_dir` return exactly what the underlying store returns; `contains` is the composite's
+"directory or contained" of the underlying answers and `get_metadata` the underlying answer with the key field set to
+the key asked for (not-found falling back to the directory test) — `mount_union_default` composed with `ro_reads`. -/
+theorem view_mount_reads_default (S : StoreOps σ) (s : σ) (tbl : List (Key × Part σ)) (k : Key)
+    (hn : NoMount tbl k) (ha : ¬ Above tbl k) :
+    (M (partOps S)).getBytes (some (.ro s), tbl) k = S.getBytes s k ∧
+    (M (partOps S)).isDir (some (.ro s), tbl) k = S.isDir s k ∧
+    (M (partOps S)).contains (some (.ro s), tbl) k = (match S.isDir s k with
+      | .error e => .error e
+      | .ok true => .ok true
+      | .ok false => S.contains s k) ∧
+    (M (partOps S)).getMeta (some (.ro s), tbl) k = (match S.getMeta s k with
+      | .ok m => .ok { m with key := k }
+      | .error e =>
+        if e = .keyNotFound ∨ e = .routeNotFound then
+          match S.isDir s k with
+          | .error e => .error e
+          | .ok true => .ok (Mt.dirMeta k)
+          | .ok false => .error .keyNotFound
+        else .error e) := by
+  refine ⟨?_, ?_, ?_, ?_⟩
+  · rw [mount_getBytes_default (partOps S) _ k hn]; rfl
+  · rw [mount_isDir_default (partOps S) _ k ha hn]; rfl
+  · rw [mount_contains_default (partOps S) _ k ha hn]; rfl
+  · rw [mount_getMeta_default (partOps S) _ k ha hn (.ro s) rfl]; rfl
+
+/-- … hence EXACTLY the underlying answers when the underlying store is consistent on `k`: a directory is contained,
+reported metadata carry the key asked for, "no metadata" implies "not a directory" -/
+theorem view_mount_reads_default_exact (S : StoreOps σ) (s : σ) (tbl : List (Key × Part σ)) (k : Key)
+    (hn : NoMount tbl k) (ha : ¬ Above tbl k)
+    (hc : S.isDir s k = .ok false ∨ (S.isDir s k = .ok true ∧ S.contains s k = .ok true))
+    (hm1 : ∀ m, S.getMeta s k = .ok m → m.key = k)
+    (hm2 : S.getMeta s k = .error .keyNotFound → S.isDir s k = .ok false)
+    (hm3 : S.getMeta s k ≠ .error .routeNotFound) :
+    (M (partOps S)).getBytes (some (.ro s), tbl) k = S.getBytes s k ∧
+    (M (partOps S)).isDir (some (.ro s), tbl) k = S.isDir s k ∧
+    (M (partOps S)).contains (some (.ro s), tbl) k = S.contains s k ∧
+    (M (partOps S)).getMeta (some (.ro s), tbl) k = S.getMeta s k := by
+  obtain ⟨h1, h2, h3, h4⟩ := view_mount_reads_default S s tbl k hn ha
+  refine ⟨h1, h2, ?_, ?_⟩
+  · rw [h3]
+    rcases hc with hc | ⟨hc, hc'⟩
+    · rw [hc]
+    · rw [hc, hc']
+  · rw [h4]
+    cases hm : S.getMeta s k with
+    | ok m =>
+      have := hm1 m hm
+      cases m
+      cases this
+      rfl
+    | error e =>
+      cases e with
+      | keyNotFound => simp [hm2 hm]
+      | routeNotFound => exact absurd hm hm3
+      | keyNotSupported => simp
+      | readOnly => simp
+      | other => simp
+
+/-- `MemoryStore` is consistent on every key: through `store.read_only().mount(..)` the four point reads of a key
+outside the mounts are exactly the reads of the `MemoryStore` under the view -/
+theorem view_mount_reads_default_mem (s : MemState) (tbl : List (Key × Part MemState)) (k : Key)
+    (hn : NoMount tbl k) (ha : ¬ Above tbl k) :
+    (M (partOps memOps)).getBytes (some (.ro s), tbl) k = memOps.getBytes s k ∧
+    (M (partOps memOps)).isDir (some (.ro s), tbl) k = memOps.isDir s k ∧
+    (M (partOps memOps)).contains (some (.ro s), tbl) k = memOps.contains s k ∧
+    (M (partOps memOps)).getMeta (some (.ro s), tbl) k = memOps.getMeta s k := by
+  apply view_mount_reads_default_exact memOps s tbl k hn ha
+  · show (Except.ok (Mem.isDir s k) : Except StoreErr Bool) = .ok false ∨
+      ((Except.ok (Mem.isDir s k) : Except StoreErr Bool) = .ok true ∧
+       (Except.ok (Mem.contains s k) : Except StoreErr Bool) = .ok true)
+    cases hd : Mem.isDir s k with
+    | false => exact Or.inl rfl
+    | true =>
+      refine Or.inr ⟨rfl, ?_⟩
+      have : Mem.contains s k = true := by
+        simp only [Mem.isDir, Bool.or_eq_true] at hd
+        simp only [Mem.contains, Bool.or_eq_true]
+        exact Or.inl (Or.inl hd)
+      rw [this]
+  · intro m hm
+    change Mem.getMeta s k = .ok m at hm
+    unfold Mem.getMeta at hm
+    split at hm
+    · cases hm; rfl
+    · split at hm
+      · cases hm; rfl
+      · cases hm
+  · intro hm
+    change Mem.getMeta s k = _ at hm
+    show (Except.ok (Mem.isDir s k) : Except StoreErr Bool) = .ok false
+    unfold Mem.getMeta at hm
+    split at hm
+    · cases hm
+    · split at hm
+      · cases hm
+      · rename_i hd
+        simp only [Bool.not_eq_true] at hd
+        rw [hd]
+  · intro hm
+    change Mem.getMeta s k = _ at hm
+    unfold Mem.getMeta at hm
+    split at hm
+    · cases hm
+    · split at hm <;> cases hm
+
+/-- **writes below a mount go to the mounted store only**: a store / store_metadata / remove / makedir whose key is owned
+by the plain store mounted at entry `i` (innermost mount on the path, `route_innermost`) is that store's own operation on
+the key with the prefix stripped; it replaces that entry's state and nothing else — the default stays the view of `s`. -/
+theorem view_mount_writes_inside (S : StoreOps σ) (s : σ) (tbl : List (Key × Part σ))
+    (hwf : tableWF (tbl.map (·.1)) = true) (op : StoreOp) (hop : isRemovedir op = false)
+    (i : Nat) (p : Key) (st : σ) (hi : tbl[i]? = some (p, .rw st)) (ho : Owns tbl i (opKey op)) :
+    (M (partOps S)).apply (some (.ro s), tbl) op =
+      (S.apply st (stripOp p op)).map (fun st' => (some (.ro s), tbl.set i (p, .rw st'))) := by
+  rw [mount_write_part (partOps S) (some (.ro s), tbl) hwf op hop i p (.rw st) hi ho, part_apply_rw]
+  cases S.apply st (stripOp p op) <;> rfl
+
+/-- the composite `store.read_only().mount(key, other)` itself: an operation at or below `key` is `other`'s own -/
+theorem view_mount_writes_inside_single (S : StoreOps σ) (s : σ) (key : Key) (other : σ) (hkey : key ≠ [])
+    (op : StoreOp) (hop : isRemovedir op = false) (hk : key <+: opKey op) :
+    (M (partOps S)).apply (viewMount s key other) op =
+      (S.apply other (stripOp key op)).map (fun o' => viewMount s key o') := by
+  have hwf : tableWF ((viewMount s key other).2.map (·.1)) = true := by
+    simp [viewMount, tableWF, hkey]
+  have ho : Owns (viewMount s key other).2 0 (opKey op) := by
+    refine ⟨key, .rw other, rfl, hk, ?_⟩
+    intro j q st' hj _
+    cases j with
+    | zero => simp [viewMount] at hj; rw [hj.1]; exact Nat.le_refl _
+    | succ j => simp [viewMount] at hj
+  exact view_mount_writes_inside S s _ hwf op hop 0 key other rfl ho
+
+/-! witnesses over the `MemoryStore` model -/
+
+def vkM : Key := [['m']]
+def vkIn : Key := [['m'], ['x']]
+def vkOut : Key := [['z']]
+def vum (c : Char) : UMeta := { user := [c] }
+/-- the store under the view holds `z` and `d/y` -/
+def vUnder : MemState := memOps.run memInit [.store vkOut [7] (vum 'u'), .store [['d'], ['y']] [8] (vum 'v')]
+/-- `under.read_only().mount("m", MemoryStore())` -/
+def vView : MtState (Part MemState) := viewMount vUnder vkM memInit
+/-- what the seeded change builds instead: the default is `under` itself -/
+def vBypass : MtState (Part MemState) := bypassMount vUnder vkM memInit
+/-- a history mixing writes inside and outside the mount -/
+def vHist : List StoreOp :=
+  [.store vkIn [1] (vum 'a'), .store vkOut [2] (vum 'b'), .remove vkOut, .makedir [['n']], .storeMeta vkOut (vum 'c'),
+   .removedir [['d']] true, .removedir [['d']] false, .store [['m'], ['w']] [3] (vum 'd'), .remove [['m'], ['w']]]
+
+/-- **the seeded mutation**: if the composite's default is the underlying store itself (`.rw`) instead of the view, a
+`store` of a key outside the mount goes through and CHANGES the underlying store -/
+theorem bypass_mount_writes_through :
+    ((M (partOps memOps)).run vBypass [.store vkOut [2] (vum 'b')]).1 ≠ vBypass.1 ∧
+    (M (partOps memOps)).getBytes vBypass vkOut = .ok [7] ∧
+    (M (partOps memOps)).getBytes ((M (partOps memOps)).run vBypass [.store vkOut [2] (vum 'b')]) vkOut = .ok [2] ∧
+    (M (partOps memOps)).apply vView (.store vkOut [2] (vum 'b')) = .error .readOnly := by
+  decide
+
+-- non-vacuity: the hypotheses of the theorems hold on the witnesses
+example : tableWF (vView.2.map (·.1)) = true := by decide
+example : NoMount vView.2 vkOut := (route_none_iff vView.2 _).mp (by decide)
+example : ¬ Above vView.2 vkOut := by
+  rintro (e | ⟨p, st, hm, hp⟩)
+  · cases e
+  · simp [vView, viewMount] at hm
+    rw [hm.1] at hp
+    exact absurd hp (by decide)
+example : Owns vView.2 0 vkIn := (route_some_iff vView.2 (by decide) _ 0).mp (by decide)
+example : (M (partOps memOps)).apply vView (.store vkIn [1] (vum 'a')) =
+    (memOps.apply memInit (.store [['x']] [1] (vum 'a'))).map (fun o' => viewMount vUnder vkM o') :=
+  view_mount_writes_inside_single memOps vUnder vkM memInit (by decide) (.store vkIn [1] (vum 'a')) rfl (by decide)
+-- the mixed history: every write outside is refused, the store under the view is what it was …
+example : (Mt.runX (partOps memOps) T vView vHist).1 = some (.ro vUnder) := by decide
+example : (Mt.runX (partOps memOps) T vView vHist).1 = some (.ro vUnder) :=
+  (view_mount_default_unchanged memOps T vUnder _ vHist).1
+-- … the write inside is visible (and the one removed again is gone), the outside key still reads the old data
+example : (M (partOps memOps)).getBytes (Mt.runX (partOps memOps) T vView vHist) vkIn = .ok [1] ∧
+          (M (partOps memOps)).getBytes (Mt.runX (partOps memOps) T vView vHist) [['m'], ['w']] = .error .keyNotFound ∧
+          (M (partOps memOps)).getBytes (Mt.runX (partOps memOps) T vView vHist) vkOut = .ok [7] ∧
+          (M (partOps memOps)).getBytes (Mt.runX (partOps memOps) T vView vHist) [['d'], ['y']] = .ok [8] ∧
+          (M (partOps memOps)).contains (Mt.runX (partOps memOps) T vView vHist) [['n']] = .ok false := by decide
+-- the same history on the mutated composite destroys the underlying store's entries
+example : (M (partOps memOps)).getBytes (Mt.runX (partOps memOps) T vBypass vHist) vkOut = .error .keyNotFound ∧
+          (M (partOps memOps)).getBytes (Mt.runX (partOps memOps) T vBypass vHist) [['d'], ['y']] = .error .keyNotFound := by
+  decide
+example : (M (partOps memOps)).apply vView (.removedir [['d']] true) = .error .readOnly := by decide
+example : (M (partOps memOps)).apply vView (.removedir [['d']] false) = .error .readOnly := by decide
+-- why `Above` is excluded: a recursive `removedir` of the mount point (or the root's child above it) first deletes what
+-- is below IN THE MOUNTED STORE and then raises at the mount point (`mount_removedir_refuses`); the view's store is untouched
+example : (M (partOps memOps)).apply (Mt.runX (partOps memOps) T vView [.store vkIn [1] (vum 'a')]) (.removedir vkM true)
+            = .error .other ∧
+          (M (partOps memOps)).getBytes (Mt.stepX (partOps memOps) T
+            (Mt.runX (partOps memOps) T vView [.store vkIn [1] (vum 'a')]) (.removedir vkM true)) vkIn = .error .keyNotFound ∧
+          (Mt.stepX (partOps memOps) T
+            (Mt.runX (partOps memOps) T vView [.store vkIn [1] (vum 'a')]) (.removedir vkM true)).1 = some (.ro vUnder) := by
+  decide
+
+end ViewMount
+
 end Liquer.C17
 
 -- OBLIGATIONS: Liquer.C17.ro_refuses Liquer.C17.ro_step_unchanged Liquer.C17.ro_run_unchanged Liquer.C17.ro_reads Liquer.C17.ro_hist_reads Liquer.C17.ro_idem
 -- OBLIGATIONS: Liquer.C17.contained Liquer.C17.meta_contained Liquer.C17.contained_comps Liquer.C17.meta_contained_comps Liquer.C17.rejects Liquer.C17.rejects_string Liquer.C17.meta_rejects Liquer.C17.path_contained Liquer.C17.metaPath_contained
 -- OBLIGATIONS: Liquer.C17.contained_state Liquer.C17.root_kept
 -- OBLIGATIONS: Liquer.Inst.memory_mutators_refused Liquer.Inst.file_mutators_refused Liquer.Inst.mutators_modelled Liquer.Inst.modelled_refused Liquer.Inst.method_modelled
+-- OBLIGATIONS: Liquer.C17.view_mount_default_unchanged Liquer.C17.view_mount_shape_kept Liquer.C17.view_mount_refuses_outside Liquer.C17.view_mount_refuses_outside_recursive Liquer.C17.view_mount_removedir_root Liquer.C17.view_mount_reads_default Liquer.C17.view_mount_reads_default_exact Liquer.C17.view_mount_reads_default_mem Liquer.C17.view_mount_writes_inside Liquer.C17.view_mount_writes_inside_single Liquer.C17.bypass_mount_writes_through
